@@ -994,6 +994,14 @@ impl Brc20ProgDatabase {
             .into());
         }
 
+        // The tables below reach the disk one by one, with everything up to the target block in them. Blocks that are
+        // finalised but not committed yet must be on disk as heights before that, as in a commit: otherwise a process that
+        // dies in between comes back below the target, and a reorg to the height it reports leaves that state in place
+        self.db_block_number_to_hash
+            .as_mut()
+            .expect(DB_MUTEX_ERROR)
+            .commit()?;
+
         self.db_account_memory
             .as_mut()
             .expect(DB_MUTEX_ERROR)
